@@ -85,6 +85,22 @@ int main(int argc, char** argv) {
     if (!glm::decompose(M, sc, o, tr, sk, pe)) return T(1e9);
     auto M2 = glm::recompose(sc, o, tr, sk, pe);
     T d = 0; for (int c = 0; c < 4; ++c) for (int r = 0; r < 4; ++r) d = std::max(d, std::abs(M[c][r] - M2[c][r])); return d; });
+  // ... and with skew and perspective: M = recompose(scale, rotation, translation, skew, perspective) with every pattern of zero / non-zero
+  // perspective entries (x[16] selects which of the three are present), decomposed and recomposed again
+  add_prop("p_decompose_full", 17, 2e-2, 1e-6, [](auto const* x) { using T = TY(x);
+    T n = std::sqrt(x[3] * x[3] + x[4] * x[4] + x[5] * x[5] + x[6] * x[6]); if (!(n > T(0.3))) return T(-1);
+    auto q = glm::qua<T, glm::defaultp>::wxyz(x[3] / n, x[4] / n, x[5] / n, x[6] / n);
+    glm::vec<3, T, glm::defaultp> S(std::abs(x[7]) + T(0.5), std::abs(x[8]) + T(0.5), std::abs(x[9]) + T(0.5)), K(x[10] * T(0.2), x[11] * T(0.2), x[12] * T(0.2));
+    int mask = (int)((std::abs((double)x[16]) * 3.99)) & 7;
+    glm::vec<4, T, glm::defaultp> P((mask & 1) ? x[13] * T(0.1) : T(0), (mask & 2) ? x[14] * T(0.1) : T(0), (mask & 4) ? x[15] * T(0.1) + T(0.05) : T(0), T(1));
+    auto M = glm::recompose(S, q, ldv<3, T>(x), K, P);
+    glm::vec<3, T, glm::defaultp> sc, tr, sk; glm::vec<4, T, glm::defaultp> pe; glm::qua<T, glm::defaultp> o;
+    if (!glm::decompose(M, sc, o, tr, sk, pe)) return T(-1);
+    auto M2 = glm::recompose(sc, o, tr, sk, pe);
+    // decompose first normalises the homogeneous matrix by M[3][3] (1 + perspective . translation here): the rebuilt matrix is M / M[3][3]
+    if (!(std::abs(M[3][3]) > T(0.2))) return T(-1);
+    T d = 0, big = 0; for (int c = 0; c < 4; ++c) for (int r = 0; r < 4; ++r) { d = std::max(d, std::abs(M[c][r] / M[3][3] - M2[c][r])); big = std::max(big, std::abs(M[c][r] / M[3][3])); }
+    return d / std::max(big, T(1)); });
   // lookAt: the rotation block is orthonormal
   // gtx/matrix_interpolation: axisAngle(axisAngleMatrix(axis, a)) recovers the rotation; interpolate(m1, m2, t) is m1 at 0 and m2 at 1
   add_prop("p_axisangle_rt", 4, 5e-3, 1e-6, [](auto const* x) { using T = TY(x); auto ax = ldv<3, T>(x); T ang = std::abs(x[3]) * T(0.7) + T(0.1);   // angle in (0.1, 1.5)
